@@ -308,7 +308,7 @@ void op_incl(const Step& s) {
 	api_end(); observe(uint64_t(v));
 	if (armed("C09")) {
 		count(c_oracle_evals);
-		if (v == 2) violation("C09.implemented-selection", site, "an implemented algorithm selection threw NotImplementedException");
+		if (v == 2) { violation("C09.implemented-selection", site, "an implemented algorithm selection threw NotImplementedException"); return; }
 		int want = mdl::incl(a.model, b.model);
 		if (want < 0) count(c_model_too_big);
 		else {
@@ -334,9 +334,12 @@ void op_incl_sim(const Step& s) {
 	StateType n = VATA::AutBase::SanitizeAutsForInclusion(sa, sb);
 	api_end();
 	FA ma, mb; std::string why;
-	if (!read_back(sa, ma, &why) || !read_back(sb, mb, &why)) { violation("C09.result-readable", site, why); return; }
-	for (long q : ma.states()) if (q < 0 || q >= long(n) || mb.states().count(q)) { violation("C09.sanitised-operands", site, "SanitizeAutsForInclusion did not give dense disjoint state numbers\n  smaller: " + mdl::to_lit(ma) + "\n  bigger : " + mdl::to_lit(mb)); return; }
-	for (long q : mb.states()) if (q < 0 || q >= long(n)) { violation("C09.sanitised-operands", site, "SanitizeAutsForInclusion returned a state count below a state number"); return; }
+	// the protocol below is the tool's, not part of C09's statement: where its conventions do not hold (numbers that are not dense and
+	// disjoint below n) the step is not applicable -- nothing is charged to the library for that
+	if (!read_back(sa, ma, &why) || !read_back(sb, mb, &why)) throw Skip();
+	for (long q : ma.states()) if (q < 0 || q >= long(n) || mb.states().count(q)) throw Skip();
+	for (long q : mb.states()) if (q < 0 || q >= long(n)) throw Skip();
+	if (mdl::equiv(ma, a.model) == 0 || mdl::equiv(mb, b.model) == 0) throw Skip();      // (a sanitiser that changed a language is C01's / C03's business)
 	FA u = ma; u.edges.insert(mb.edges.begin(), mb.edges.end()); u.finals.insert(mb.finals.begin(), mb.finals.end());
 	std::set<long> dom; for (long q = 0; q < long(n); ++q) dom.insert(q);
 	mdl::Rel rel = mdl::fwd_sim(u, dom);
@@ -356,13 +359,17 @@ void op_incl_sim(const Step& s) {
 	int v;
 	api_begin(); api_site(site, BUDGET_HANG, 20000000);
 	try {
-		if (congr) { EF un = EF::UnionDisjointStates(sa, sb); v = EF::CheckInclusion(un, sb, ip) ? 1 : 0; }
+		if (congr) {
+			EF un = EF::UnionDisjointStates(sa, sb);
+			{ FA mu; std::string w2; if (!read_back(un, mu, &w2) || !(mu.edges == u.edges && mu.finals == u.finals)) { api_end(); throw Skip(); } }      // the relation is indexed by the operands' numbers: a union that renumbers does not fit the protocol
+			v = EF::CheckInclusion(un, sb, ip) ? 1 : 0;
+		}
 		else v = EF::CheckInclusion(sa, sb, ip) ? 1 : 0;
-	} catch (const VATA::NotImplementedException&) { count(c_notimpl_thrown); v = 2; }
+	} catch (const std::exception&) { count(c_notimpl_thrown); v = 2; }      // the selections with a relation are not among those C09 names: a library may refuse them
 	api_end(); observe(uint64_t(v));
 	if (armed("C09")) {
 		count(c_oracle_evals);
-		if (v == 2) { violation("C09.implemented-selection", site, "an implemented algorithm selection threw NotImplementedException"); return; }
+		if (v == 2) return;
 		int want = mdl::incl(a.model, b.model);
 		if (want < 0) count(c_model_too_big);
 		else {
@@ -384,7 +391,7 @@ void op_incl_all(const Step& s) {
 		long via = long(r.below(2)); const std::string site = std::string("fa_incl:") + ALG[alg] + (via ? ":cli" : ":api");
 		api_begin(); api_site(site, BUDGET_HANG, 20000000);
 		int v = run_incl(*a.aut, *b.aut, alg, via);
-		api_end(); observe(uint64_t(v)); count(c_oracle_evals);
+		api_end(); observe(uint64_t(v)); if (!armed("C09")) continue; count(c_oracle_evals);
 		if (v == 2) { violation("C09.implemented-selection", site, "an implemented algorithm selection threw NotImplementedException"); continue; }
 		if (want >= 0) {
 			(want ? count(c_verdict_true) : count(c_verdict_false));
@@ -393,7 +400,7 @@ void op_incl_all(const Step& s) {
 		if (first < 0) { first = v; firstalg = alg; }
 		else if (v != first) violation("C09.algorithms-agree", site, std::string("algorithms disagree: ") + ALG[firstalg] + " says " + std::to_string(first) + ", " + ALG[alg] + " says " + std::to_string(v));
 	}
-	if (want >= 0) note_fa_case(a.model, &b.model, 19);
+	if (want >= 0 && armed("C09")) note_fa_case(a.model, &b.model, 19);
 	if (armed("C09")) operands_unchanged(s, a, &b, "C09");
 }
 
